@@ -40,6 +40,8 @@ class Log:
                 elif t == "X" and self.status is None and len(w) > 1 and w[1] in ("done", "deadlock", "step-budget-exhausted"):
                     self.status = w[1]
                     self.meta = dict(x.split("=") for x in w[2:] if "=" in x)
+                elif t == "K" and len(w) >= 4:
+                    self.events.append({"t": "K", "tid": int(w[1]), "unit": w[2], "time": float(w[3]), "ln": ln})
                 elif t == "P" and len(w) >= 3:
                     self.events.append({"t": "P", "name": w[1], "hex": w[2], "ln": ln})
                 elif t == "B":
@@ -182,3 +184,148 @@ def project_mutex(log, mname):
                 elif op == "load" and a == n and in_wait.get(a) == name:
                     emit("loadState %d %d" % (n, 1 if ev["cur"] == READY else 0), ev)
     return out, src
+
+
+# --------------------------------------------------------------------------------------------
+# projection onto Model.WaitList (generic) and Model.Cond
+# --------------------------------------------------------------------------------------------
+class ActorMap:
+    """who performs an event: the work unit A<i>, an external thread running actor A<i>, or the
+    scheduler context finishing A<i>'s suspension on that OS thread"""
+
+    def __init__(self):
+        self.ext_actor = {}
+        self.susp_on_tid = {}
+
+    def feed(self, ev):
+        t = ev["t"]
+        if t == "S" and ev["txt"][0] == "userStart" and ev["unit"] == "-":
+            self.ext_actor[ev["tid"]] = int(ev["txt"][1][1:])
+        elif t == "E":
+            if ev["kind"] == 9 and ev["p1"].startswith("A") and ev["p1"][1:].isdigit():
+                self.susp_on_tid[ev["tid"]] = int(ev["p1"][1:])
+            elif ev["kind"] == 5:
+                self.susp_on_tid.pop(ev["tid"], None)
+
+    def actor(self, ev):
+        u = ev.get("unit", "-")
+        if u.startswith("A") and u[1:].isdigit():
+            return int(u[1:])
+        tid = ev["tid"]
+        if u == "-" and tid in self.ext_actor:
+            return self.ext_actor[tid]
+        return self.susp_on_tid.get(tid)
+
+
+def project_waitlist(log, oname, o_lock, o_wl, cond=None):
+    """Events of object `oname` (spinlock at offset o_lock, ABTI_waitlist at o_wl) for `driver waitlist`.
+    With cond = {"mutexes": {"CM0": 0, ...}} the cond-level events for `driver cond` are added."""
+    o_state = log.off("ABTI_thread", "state")
+    o_mlock = log.off("ABTI_mutex", "lock")
+    ults = [str(i) for i, a in log.actors.items() if a.get("kind") == "ult"]
+    out = ["init %s" % " ".join(ults)]
+    am = ActorMap()
+    wl_loc = "%s+%d" % (oname, o_wl) if o_wl else oname
+    node_actor = {}       # node name -> actor, while queued / being woken
+    in_wait = {}          # actor -> node name from enqueue until its wait is over
+    susp = set()          # ULT actors enqueued, BLOCKED store still to come
+    spinning = set()      # actors whose last tas on L failed
+    pending = {}          # waker -> node it dequeued
+    deadline = {}         # actor -> absolute deadline of its timed wait
+    mutexes = (cond or {}).get("mutexes", {})
+
+    def emit(line):
+        out.append(line)
+
+    for ev in log.events:
+        am.feed(ev)
+        t = ev["t"]
+        if t == "S":
+            txt = ev["txt"]
+            if txt[0] == "Q" and len(txt) >= 4 and txt[1] == oname:
+                # the real list at the lock release: node names -> actors
+                nodes = [x.split(":")[0] for x in txt[5:]] if len(txt) > 5 else []
+                emit("checkQ " + " ".join(str(node_actor.get(nd, nd)) for nd in nodes))
+                continue
+            if txt[0] in ("apiCall", "apiRet") and len(txt) >= 3 and txt[2] == oname:
+                a = am.actor(ev)
+                if a is None:
+                    continue
+                op = txt[1]
+                if txt[0] == "apiCall":
+                    if op == "timedwait":
+                        deadline[a] = float(txt[4])
+                    if cond is not None:
+                        if op in ("wait", "timedwait"):
+                            emit("call %d %s %d" % (a, op, mutexes[txt[3]]))
+                        else:
+                            emit("call %d %s" % (a, op))
+                else:
+                    rc = int(txt[3])
+                    in_wait.pop(a, None)
+                    deadline.pop(a, None)
+                    if cond is not None:
+                        emit("ret %d %s" % (a, {0: "ok"}.get(rc, "timedout" if rc == cond["rc_timedout"] else
+                                                              ("invMutex" if rc == cond["rc_inv_mutex"] else "rc%d" % rc))))
+        elif t == "K":
+            a = am.actor(ev)
+            if a is not None and a in in_wait and a in deadline:
+                emit("timeCheck %d %d" % (a, 1 if ev["time"] >= deadline[a] else 0))
+        elif t == "E":
+            k = ev["kind"]
+            if k == 50 and ev["p1"] == wl_loc:
+                a = am.actor(ev)
+                node_actor[ev["p2"]] = a
+                in_wait[a] = ev["p2"]
+                if ev["p2"].startswith("A"):
+                    susp.add(a)
+                emit("enq %d %d" % (a, ev["v"]))
+            elif k == 52 and ev["p1"] == wl_loc:
+                a = am.actor(ev)
+                n = node_actor.get(ev["p2"], 999999)
+                pending[a] = ev["p2"]
+                emit("deq %d %d" % (a, n))
+            elif k == 51 and ev["p1"] == wl_loc:
+                a = am.actor(ev)
+                node_actor.pop(ev["p2"], None)
+                emit("rm %d" % a)
+        elif t == "A":
+            name, off = split_loc(ev["loc"])
+            op = ev["op"]
+            if name == oname and off == o_lock:
+                a = am.actor(ev)
+                if op == "tas" and a is not None:
+                    if a not in spinning and a not in in_wait:
+                        emit("begin %d" % a)
+                    if ev["cur"]:
+                        spinning.add(a)
+                    else:
+                        spinning.discard(a)
+                    emit("tasL %d %d" % (a, 1 if ev["cur"] else 0))
+                elif op == "clear" and a is not None:
+                    emit("clearL %d" % a)
+                elif op == "load":
+                    emit("obsL %d" % (1 if ev["cur"] else 0))
+            elif cond is not None and name in mutexes and off == o_mlock:
+                a = am.actor(ev)
+                if a is None:
+                    continue
+                if op == "tas" and ev["cur"] == 0:
+                    emit("mutexLock %d %d" % (a, mutexes[name]))
+                elif op == "clear":
+                    emit("mutexUnlock %d %d" % (a, mutexes[name]))
+            elif off == o_state and name in node_actor:
+                n = node_actor[name]
+                a = am.actor(ev)
+                if op == "store" and ev["a"] == BLOCKED and n in susp and a == n:
+                    susp.discard(n)
+                    emit("storeBlocked %d" % n)
+                elif op == "store" and ev["a"] == READY and a is not None and pending.get(a) == name:
+                    pending.pop(a)
+                    emit("storeReady %d %d" % (a, n))
+                    if name.startswith("A"):
+                        node_actor.pop(name, None)
+                        in_wait.pop(n, None)
+                elif op == "load" and a == n and in_wait.get(a) == name:
+                    emit("loadState %d %d" % (n, 1 if ev["cur"] == READY else 0))
+    return out
